@@ -1,4 +1,5 @@
-(* C17 — binomial after fixes/C17-1.patch (gcd-reduced incremental product): exact whenever C(n,k) is representable. *)
+(* C17 — binomial after fixes/C17-1.patch (incremental product, reduced by the gcd that a literal Euclid loop computes):
+   exact whenever C(n,k) is representable. *)
 From Coq Require Import ZArith Znumtheory List Bool Lia.
 From DuneV Require Import C17_Model C17_Spec C17_Proofs_Int.
 Local Open Scope Z_scope.
@@ -79,16 +80,34 @@ Proof.
   split; [apply Z.div_pos; lia | apply Z.div_le_upper_bound; nia].
 Qed.
 
+(* Euclid's loop computes Z.gcd for non-negative representable arguments, and never runs out of fuel once fuel > r *)
+Lemma C17_euclid_gcd_lemma (t : c17_ity) (fuel : nat) : forall g r : Z,
+  c17_inrange t 0 = true -> c17_inrange t g = true -> c17_inrange t r = true ->
+  0 <= g -> 0 <= r -> (Z.to_nat r < fuel)%nat ->
+  c17_euclid_loop fuel t g r = C17_Val (Z.gcd g r).
+Proof.
+  induction fuel as [|f IH]; intros g r R0 Rg Rr Hg Hr Hf; [lia|].
+  cbn [c17_euclid_loop]. destruct (Z.eqb_spec r 0) as [->|Nz].
+  - rewrite Z.gcd_0_r, Z.abs_eq by lia. reflexivity.
+  - unfold c17_irem. assert (E : (r =? 0) = false) by (now apply Z.eqb_neq). rewrite E.
+    rewrite Z.rem_mod_nonneg by lia.
+    pose proof (Z.mod_pos_bound g r ltac:(lia)) as B.
+    rewrite (c17_fit_in t (g mod r)) by (apply (c17_inrange_between t 0 _ r); auto; lia).
+    cbn [c17_bind]. rewrite IH; auto; try lia.
+    + f_equal. rewrite (Z.gcd_comm r (g mod r)), Z.gcd_mod by lia. apply Z.gcd_comm.
+    + apply (c17_inrange_between t 0 _ r); auto; lia.
+Qed.
+
 Lemma c17_binomial_fix_loop_S (t : c17_ity) (c : nat) (nk i bin : Z) :
   c17_binomial_fix_loop t (S c) nk i bin =
-    let g := Z.gcd bin i in
+    c17_bind (c17_euclid_loop (c17_euclid_fuel i) t bin i) (fun g =>
     c17_bind (c17_idiv t bin g) (fun a =>
     c17_bind (c17_fit t (nk + i)) (fun b =>
     c17_bind (c17_idiv t i g) (fun d =>
     c17_bind (c17_idiv t b d) (fun e =>
     c17_bind (c17_fit t (a * e)) (fun bin' =>
     c17_bind (c17_fit t (i + 1)) (fun i' =>
-    c17_binomial_fix_loop t c nk i' bin')))))).
+    c17_binomial_fix_loop t c nk i' bin'))))))).
 Proof. reflexivity. Qed.
 
 (* the loop: after j completed iterations bin = C(m+j, j); cnt more iterations give C(m+j+cnt, j+cnt) *)
@@ -102,7 +121,7 @@ Lemma c17_binomial_fix_loop_ok (t : c17_ity) (m : nat) (cnt : nat) : forall j : 
 Proof.
   induction cnt as [|c IH]; intros j R0 Hjm RN' RC.
   - simpl. now rewrite Nat.add_0_r.
-  - rewrite c17_binomial_fix_loop_S. cbv zeta.
+  - rewrite c17_binomial_fix_loop_S.
     set (bin := c17_choose (m + j) j). set (i := Z.of_nat (S j)).
     set (c' := c17_choose (S (m + j)) (S j)). set (b := Z.of_nat m + i).
     assert (Pb : 0 < bin) by (pose proof (c17_choose_pos (m + j) j ltac:(lia)); unfold bin; lia).
@@ -122,6 +141,8 @@ Proof.
     { apply (c17_inrange_between t 0 _ (Z.of_nat (m + (j + S c)))); auto. unfold b, i. lia. }
     assert (Ri : c17_inrange t i = true).
     { apply (c17_inrange_between t 0 _ (Z.of_nat (m + (j + S c)))); auto. unfold i. lia. }
+    rewrite (C17_euclid_gcd_lemma t (c17_euclid_fuel i) bin i R0 Rbin Ri) by (unfold c17_euclid_fuel; lia).
+    cbn [c17_bind]. fold g.
     rewrite (c17_idiv_pos t bin g) by (auto; lia). cbn [c17_bind].
     fold i. fold b. rewrite (c17_fit_in t b Rb). cbn [c17_bind].
     rewrite (c17_idiv_pos t i g) by (auto; lia). cbn [c17_bind].
